@@ -163,6 +163,27 @@ def check_case(ctx, case):
 
     with RUN.Loaded(program, on_block=on_block):
         pass
+    if not state["failed"] and len(names) >= 2:
+        # the same program again, nothing called while it is being defined; then the classes are probed in REVERSE order
+        # of definition (the first call of an inherited member comes from the most derived class): every class must
+        # answer as it did when it was probed right after its own definition
+        with RUN.Loaded(program) as loaded2:
+            for ci in range(len(names) - 1, -1, -1):
+                c = program["classes"][ci]
+                if loaded2.errors.get(c["name"]) is not None or model.def_error.get(ci) is not None:
+                    continue
+                ops = probe_ops(program, model, ci)
+                t_true = {x: ["T"] for x in cids}
+                t_false = {x: ["F"] for x in cids}
+                res = [probe(loaded2, ops, t) for t in (t_true, t_false)]
+                res.append(probe(loaded2, [dict(ops[0], truth=t_true)] + [dict(o, truth=t_false) for o in ops[1:]], t_true))
+                if c["name"] in base_probes and base_probes[c["name"]] != res:
+                    idx = next(i for i, (a, b) in enumerate(zip(base_probes[c["name"]], res)) if a != b)
+                    ctx.fail("verdicts-depend-on-who-called-first|%s" % D.struct_sig(case), strip(case), describe(
+                        case, loaded2, "probing the classes in reverse order of definition, %s behaves differently from "
+                                       "when it was probed right after its definition (probe table %d):\n then: %r\n now:  %r" % (
+                                           c["name"], idx, base_probes[c["name"]][idx], res[idx])))
+                    break
     nt = nontrivial(program)
     for f in D.program_features(program):
         ctx.count("prog:" + f)
